@@ -265,6 +265,8 @@ def main(argv=None):
                checks=sum(r.get("checks", 0) for r in results), cases=len(results))
     print("%s tier=%s cases=%d paths=%d queries=%d assertions=%d vectors=%d wall=%.1fs" % (
         prop_id, tier, tot["cases"], tot["paths"], tot["queries"], tot["checks"], tv, wall))
+    slow = sorted(results, key=lambda r: -r.get("wall", 0))[:4]
+    print("  slowest cases: " + ", ".join("%s %.0fs" % (r.get("case"), r.get("wall", 0)) for r in slow))
     if real:
         for rec, path in real:
             print("  violated: case=%s assertion=%r witness=%s" % (rec["case"], rec["label"],
